@@ -25,6 +25,7 @@ func main() {
 	dump := flag.String("dump", "", "debug: dump paths of pkg:recv:func")
 	dumpDepth := flag.Int("dumpdepth", 3, "debug: inline depth for -dump")
 	noEvidence := flag.Bool("no-evidence", false, "do not write evidence (used for mutant runs)")
+	list := flag.Bool("list", false, "print every obligation")
 	flag.Parse()
 	start := time.Now()
 	if *tier == "" {
@@ -95,6 +96,11 @@ func main() {
 				tf(c, extra)
 			}
 			runMutants(c, *verif, *repo, extra)
+		}
+		if *list {
+			for _, o := range c.Obs {
+				fmt.Printf("%-10s %-6s %s  @%s\n      %s\n", o.Verdict, o.Rule, o.Key, o.Pos, o.Fact)
+			}
 		}
 		if *explain != "" {
 			for _, o := range c.Obs {
